@@ -4,6 +4,7 @@ import (
 	"fmt"
 	"math/rand"
 	"runtime/debug"
+	"sort"
 )
 
 // genVersionsCase2: up to 6 live trees derived from one another by clone / persist+reload,
@@ -19,6 +20,7 @@ func genSharingCase(r *rand.Rand, cfg Cfg) Case {
 	n := 15 + r.Intn(60)
 	live := map[int]map[uint64]uint64{0: {}}
 	rootMaps := map[int]map[uint64]uint64{}
+	openCur := map[int]bool{}
 	for i := 0; i < n; i++ {
 		s := pick(r, slots)
 		m := live[s]
@@ -50,6 +52,25 @@ func genSharingCase(r *rand.Rand, cfg Cfg) Case {
 			}
 			ops = append(ops, opDel(s, k, m[k]))
 			delete(m, k)
+		case x < 70:
+			// a cursor captures the tree as it is now; it is walked later, after more modifications
+			ops = append(ops, fmt.Sprintf("cur %d %d", s, s))
+			openCur[s] = true
+		case x < 74:
+			var cs []int
+			for c := range openCur {
+				cs = append(cs, c)
+			}
+			if len(cs) == 0 {
+				continue
+			}
+			sort.Ints(cs)
+			c := pick(r, cs)
+			ops = append(ops, pick(r, []string{fmt.Sprintf("cmin %d", c), fmt.Sprintf("cmax %d", c), fmt.Sprintf("cceil %d %d", c, pick(r, uni))}))
+			for j := 0; j < 1+r.Intn(5); j++ {
+				ops = append(ops, fmt.Sprintf("%s %d", pick(r, []string{"cfwd", "cfwd", "cbwd"}), c))
+			}
+			delete(openCur, c) // a walked cursor may be off an end: open a new one next time
 		case x < 78:
 			d := r.Intn(6)
 			ops = append(ops, fmt.Sprintf("clone %d %d", s, d))
